@@ -79,10 +79,13 @@ SiteEv(ev, t) ==
   /\ Runnable(S, t)
   /\ Top(S, t).pc = ev.e
   /\ (ev.e = "FutexWake" => SeqSet(ev.w) = S.F[Top(S, t).f].fw)
-  /\ LET s2 == StepThread(S, t) IN
-       /\ s2.out = ev.r
-       /\ PcMatches(s2, t, ev.n)
-       /\ S' = Fin(s2)
+  /\ LET s1 == StepThread(S, t)
+         \* a pool call entered during the step may also return within it (it hit no schedule point)
+         Cands == {s1} \cup (IF PoolMayReturn(s1, t) THEN {Settle(Pop(s1, t), t)} ELSE {})
+     IN \E s2 \in Cands :
+          /\ s2.out = ev.r
+          /\ PcMatches(s2, t, ev.n)
+          /\ S' = Fin(s2)
 
 EnvEv(ev, t) ==
   IF S.K[t] # <<>> /\ Top(S, t).pc = "FutexBlocked"
